@@ -87,6 +87,8 @@ pub enum SyntaxError {
     ExpectedCatch,
     #[error("expected closing parenthesis ')'")]
     ExpectedCloseParen,
+    #[error("an argument name can only be used once in a function's arguments")]
+    DuplicateArgumentName,
     #[error("all arguments following a default value must also have a default value")]
     ExpectedDefaultValue,
     #[error("expected expression after 'else'.")]
